@@ -80,36 +80,28 @@ func (c *ThrottlingChecker) DoCheck(_ base.StatNode, batchCount uint32, threshol
 	// The interval between two requests (in nanoseconds).
 	intervalNs := int64(math.Ceil(float64(batchCount) / threshold * float64(c.statIntervalNs)))
 
-	vhook.Yield(201)
-	loadedLastPassedTime := atomic.LoadInt64(&c.lastPassedTime)
-	// Expected pass time of this request.
-	expectedTime := loadedLastPassedTime + intervalNs
-	if expectedTime <= curNano {
-		vhook.Yield(202)
-		if swapped := atomic.CompareAndSwapInt64(&c.lastPassedTime, loadedLastPassedTime, curNano); swapped {
-			// nil means pass
-			return nil
+	for {
+		vhook.Yield(201)
+		loadedLastPassedTime := atomic.LoadInt64(&c.lastPassedTime)
+		// Pass time of this request: one interval after the latest scheduled pass time,
+		// but never in the past (idle time is not banked).
+		passTime := loadedLastPassedTime + intervalNs
+		if passTime < curNano {
+			passTime = curNano
 		}
-	}
-
-	vhook.Yield(203)
-	estimatedQueueingDuration := atomic.LoadInt64(&c.lastPassedTime) + intervalNs - curNano
-	if estimatedQueueingDuration > c.maxQueueingTimeNs {
-		return base.NewTokenResultBlockedWithCause(base.BlockTypeFlow, BlockMsgQueueing, rule, nil)
-	}
-
-	vhook.Yield(204)
-	oldTime := atomic.AddInt64(&c.lastPassedTime, intervalNs)
-	estimatedQueueingDuration = oldTime - curNano
-	if estimatedQueueingDuration > c.maxQueueingTimeNs {
-		// Subtract the interval.
-		vhook.Yield(205)
-		atomic.AddInt64(&c.lastPassedTime, -intervalNs)
-		return base.NewTokenResultBlockedWithCause(base.BlockTypeFlow, BlockMsgQueueing, rule, nil)
-	}
-	if estimatedQueueingDuration > 0 {
-		return base.NewTokenResultShouldWait(time.Duration(estimatedQueueingDuration))
-	} else {
-		return base.NewTokenResultShouldWait(0)
+		estimatedQueueingDuration := passTime - curNano
+		if estimatedQueueingDuration > c.maxQueueingTimeNs {
+			return base.NewTokenResultBlockedWithCause(base.BlockTypeFlow, BlockMsgQueueing, rule, nil)
+		}
+		// Publish the pass time only if no other request was scheduled since the load;
+		// otherwise start over from the new latest pass time.
+		vhook.Yield(202)
+		if atomic.CompareAndSwapInt64(&c.lastPassedTime, loadedLastPassedTime, passTime) {
+			if estimatedQueueingDuration == 0 {
+				// nil means pass
+				return nil
+			}
+			return base.NewTokenResultShouldWait(time.Duration(estimatedQueueingDuration))
+		}
 	}
 }
